@@ -59,10 +59,15 @@ def expected_value(v, ann):
     if isclass(ann) and issubclass(ann, StringSerializable) and isinstance(v, str):
         # INDEPENDENT of the package's own parser for the three basic pseudo-types: what the original string means is
         # computed with the builtins, then wrapped into the class only to have a value of the right type to compare with
-        if ann.__name__ == "IntString":
-            return ann(int(v))
-        if ann.__name__ == "FloatString":
-            return ann(float(v))
+        try:
+            if ann.__name__ == "IntString":
+                return ann(int(v))
+            if ann.__name__ == "FloatString":
+                return ann(float(v))
+        except ValueError:
+            # the annotation says a numeric pseudo-type although the sample's own string is not one: nothing the field holds
+            # can be "equal to parsing the original string"
+            return ("<the sample string does not parse as the annotated type>", v)
         if ann.__name__ == "BooleanString":
             return ann(v.lower() == "true")
         return ann.to_internal_value(v)
